@@ -566,10 +566,50 @@ func (h *plcHist) Add(alpha bool, cid []byte, vec int64, ks [][]byte) bool {
 		if len(p[b]) > h.run.maxKeys {
 			h.run.maxKeys = len(p[b])
 		}
+		h.checkPending(cid)
 	} else {
 		h.checkedOrRefused = true
 	}
 	return r.Halt
+}
+
+// storedValues reads the values stored under a prefix of the container
+// contract, in key order (what a Find over that prefix yields).
+func (h *plcHist) storedValues(pfx []byte) [][]byte {
+	cs := h.env.BC.GetContractState(h.env.container)
+	var out [][]byte
+	h.env.BC.SeekStorage(cs.ID, pfx, func(_, v []byte) bool {
+		out = append(out, append([]byte{}, v...))
+		return true
+	})
+	return out
+}
+
+// checkPending (monitor): the pending roster in storage must be, vector by
+// vector and in key order, exactly the concatenation of the accepted
+// addNextEpochNodes batches since the last commit — nothing lost, nothing
+// overwritten, nothing under other vectors.
+func (h *plcHist) checkPending(cid []byte) {
+	if len(cid) != 32 {
+		return
+	}
+	ref := h.vecs(h.pend, cid)
+	total := 0
+	for bi := 0; bi < 256; bi++ {
+		b := byte(bi)
+		want, touched := ref[b]
+		if !touched {
+			continue
+		}
+		total += len(want)
+		if got := h.storedValues(plcPfx('u', cid, b)); !plcEqLists(got, want) {
+			h.violate(fmt.Sprintf("roster: pending nodes of vector %d in storage (%d keys) differ from the concatenation of the accepted batches (%d keys)", b, len(got), len(want)))
+			return
+		}
+	}
+	if got := len(h.storedValues(plcPfx('u', cid))); got != total {
+		h.violate(fmt.Sprintf("roster: %d pending records in storage, %d keys accepted since the last commit", got, total))
+	}
 }
 
 // Commit: commitContainerListUpdate. reps == nil: Null. asBytes: the list is
@@ -1198,6 +1238,82 @@ func plcCorpusRoster(h *plcHist) {
 	h.Verify(c31, g.msgs[0], plcM{}, false)
 	h.Keys(plcPfx('n', A))
 	h.Keys(plcPfx('u', A))
+}
+
+// Batches of several vectors interleaved in every order: each vector's list
+// must be the concatenation of ITS batches in submission order, whatever was
+// added to other vectors (or another container) in between. The first
+// history is the witness of seeded change C14-i.
+func plcCorpusInterleave(h *plcHist) {
+	g := h.g
+	A, B := g.cids[0], g.cids[1]
+	next := 0
+	ks := func(n int) [][]byte {
+		out := g.pubs(plcRange(next, next+n)...)
+		next += n
+		return out
+	}
+	all := func(cid []byte, nv int64) {
+		for v := int64(0); v < nv; v++ {
+			h.Nodes(cid, v)
+		}
+		h.Reps(cid)
+	}
+	// add(0,[a,b]); add(1,[x]); add(0,[d]); commit -> nodes(0) = [a,b,d]
+	h.Add(true, A, 0, ks(2))
+	h.Add(true, A, 1, ks(1))
+	h.Add(true, A, 0, ks(1))
+	h.Keys(plcPfx('u', A))
+	h.Commit(true, A, []int64{2, 1}, false)
+	all(A, 2)
+	// 0,1,0,1 then 1,0,1 with sizes 1, 0, 3
+	h.Add(true, A, 0, ks(1))
+	h.Add(true, A, 1, ks(3))
+	h.Add(true, A, 0, ks(3))
+	h.Add(true, A, 1, ks(1))
+	h.Add(true, A, 1, nil)
+	h.Add(true, A, 0, nil)
+	h.Add(true, A, 1, ks(2))
+	h.Keys(plcPfx('u', A, 0))
+	h.Keys(plcPfx('u', A, 1))
+	h.Nodes(A, 0) // still the previous commit
+	h.Commit(true, A, []int64{1, 3}, true)
+	all(A, 3)
+	// 0,1,2,1,0,2,0 and a second container in between
+	h.Add(true, A, 0, ks(2))
+	h.Add(true, B, 0, ks(2))
+	h.Add(true, A, 1, ks(1))
+	h.Add(true, A, 2, ks(4))
+	h.Add(true, B, 1, ks(1))
+	h.Add(true, A, 1, ks(2))
+	h.Add(true, B, 0, ks(3))
+	h.Add(true, A, 0, ks(1))
+	h.Add(true, A, 2, ks(1))
+	h.Add(true, B, 1, ks(1))
+	h.Add(true, A, 0, ks(5))
+	h.Add(true, B, 0, ks(1))
+	h.Keys(plcPfx('u', A))
+	h.Keys(plcPfx('u', B))
+	h.Commit(true, B, []int64{2, 1}, false)
+	all(B, 2)
+	all(A, 3) // A not committed yet
+	h.Add(true, A, 3, ks(1))
+	h.Add(true, A, 1, ks(1))
+	h.Commit(true, A, []int64{1, 2, 3, 1}, false)
+	all(A, 4)
+	all(B, 2)
+	// B again: highest vector first filled late, then back twice
+	h.Add(true, B, 0, ks(1))
+	h.Add(true, B, 1, ks(1))
+	h.Add(true, B, 2, ks(1))
+	h.Add(true, B, 3, ks(2))
+	h.Add(true, B, 0, ks(1))
+	h.Add(true, B, 3, ks(1))
+	h.Add(true, B, 1, ks(2))
+	h.Add(true, B, 0, ks(2))
+	h.Commit(true, B, []int64{1, 1, 1, 1}, false)
+	all(B, 4)
+	h.Keys(plcPfx('n', B))
 }
 
 // Vector and REP number boundaries on a short roster.
@@ -1892,7 +2008,12 @@ func plcGenRoster(h *plcHist, r *rand.Rand, nops, maxBatch, totalCap int) {
 					reps[r.Intn(len(reps))] = []int64{0, 255, 256, -1}[r.Intn(4)]
 				}
 			}
-			h.Commit(alpha, cid, reps, r.Intn(3) == 0)
+			np := npend(cid)
+			if h.Commit(alpha, cid, reps, r.Intn(3) == 0) {
+				for v := int64(0); v < np && v < 4; v++ {
+					h.Nodes(cid, v)
+				}
+			}
 			if r.Intn(5) == 0 {
 				h.Commit(true, cid, nil, false)
 			}
@@ -1922,6 +2043,93 @@ func plcGenRoster(h *plcHist, r *rand.Rand, nops, maxBatch, totalCap int) {
 		}
 		h.Reps(cid)
 	}
+}
+
+// plcGenInterleave: batches for 2..4 vectors of two containers in random
+// interleaved order (sizes 0, 1, several), several commits; after every
+// commit all vectors are read back.
+func plcGenInterleave(h *plcHist, r *rand.Rand, epochs int) {
+	g := h.g
+	cids := [][]byte{g.cids[0], g.cids[1]}
+	nextKey := r.Intn(plcRingSize)
+	draw := func(n int) [][]byte {
+		out := make([][]byte, n)
+		for i := range out {
+			out[i] = g.pub[nextKey%plcRingSize]
+			nextKey++
+		}
+		return out
+	}
+	size := func() int {
+		switch r.Intn(6) {
+		case 0:
+			return 0
+		case 1, 2:
+			return 1
+		default:
+			return 2 + r.Intn(4)
+		}
+	}
+	nvs := []int{2 + r.Intn(3), 1 + r.Intn(3)}
+	for e := 0; e < epochs; e++ {
+		// a plan of batches per container, shuffled, made contiguous on the fly
+		type batch struct{ c, v int }
+		var plan []batch
+		for c, nv := range nvs {
+			if c == 1 && r.Intn(3) == 0 {
+				continue
+			}
+			for v := 0; v < nv; v++ {
+				for k := 1 + r.Intn(3); k > 0; k-- {
+					plan = append(plan, batch{c, v})
+				}
+			}
+		}
+		r.Shuffle(len(plan), func(i, j int) { plan[i], plan[j] = plan[j], plan[i] })
+		for len(plan) > 0 {
+			// first batch of the plan whose vector may be filled now
+			pick := -1
+			for i, b := range plan {
+				if b.v == 0 || len(h.vecs(h.pend, cids[b.c])[byte(b.v-1)]) > 0 {
+					pick = i
+					break
+				}
+			}
+			if pick < 0 {
+				break
+			}
+			b := plan[pick]
+			plan = append(plan[:pick], plan[pick+1:]...)
+			n := size()
+			if b.v+1 < nvs[b.c] && len(h.vecs(h.pend, cids[b.c])[byte(b.v)]) == 0 && n == 0 {
+				n = 1 // keep later vectors reachable
+			}
+			h.Add(true, cids[b.c], int64(b.v), draw(n))
+			if r.Intn(9) == 0 {
+				h.Keys(plcPfx('u', cids[b.c], byte(b.v)))
+			}
+			if r.Intn(12) == 0 { // a commit of the other container in the middle
+				oc := cids[1-b.c]
+				if h.Commit(true, oc, plcRandReps(r, nvs[1-b.c]), false) {
+					for v := 0; v < nvs[1-b.c]; v++ {
+						h.Nodes(oc, int64(v))
+					}
+				}
+			}
+		}
+		for c, cid := range cids {
+			if c == 1 && r.Intn(3) == 0 {
+				continue // stays pending over the next epoch
+			}
+			if h.Commit(true, cid, plcRandReps(r, nvs[c]), r.Intn(2) == 0) {
+				for v := 0; v < nvs[c]; v++ {
+					h.Nodes(cid, int64(v))
+				}
+				h.Reps(cid)
+			}
+		}
+	}
+	h.Keys(plcPfx('u', cids[1]))
 }
 
 // plcGenSubmit: a container with the meta flag, a small roster, a few metas.
@@ -2034,7 +2242,7 @@ func plcGenBig(h *plcHist, r *rand.Rand) {
 func TestC14(t *testing.T) {
 	st := NewStats("C14")
 	st.Rule = "histories = hand-written corpus (F6 matrices, signers from a different vector / another container (C14-a witnesses), roster life cycle, vector/REP boundaries, 255-vector ladder, non-point key, 300-key vector, submitObjectPut variants) + seeded generation " +
-		"(roster life cycles over 2 container ids; verification matrices for rosters of 1..4 vectors x 1..8 members with different REP numbers, built from {member, non-member, member of a different vector of the same container, member of another container's roster, duplicate, second signature by the same member, wrong message, malleated, junk}; submitObjectPut on containers created by a real put); " +
+		"(roster life cycles over 2 container ids; batches of 2..4 vectors of two containers in shuffled interleaved order with sizes 0/1/2..5, several commits, every vector read back after every commit; verification matrices for rosters of 1..4 vectors x 1..8 members with different REP numbers, built from {member, non-member, member of a different vector of the same container, member of another container's roster, duplicate, second signature by the same member, wrong message, malleated, junk}; submitObjectPut on containers created by a real put); " +
 		"non-trivial = the history contains at least one accepted commitContainerListUpdate and at least one OVerify/OSubmit evaluation or refused (faulted) operation; " +
 		"distinct = by the canonical string of all ops (arguments by interned byte strings) and outcomes"
 	thorough := Tier() == "thorough"
@@ -2086,6 +2294,7 @@ func TestC14(t *testing.T) {
 	do("corpus/F6", plcCorpusF6)
 	do("corpus/cross", plcCorpusCross)
 	do("corpus/roster", plcCorpusRoster)
+	do("corpus/interleave", plcCorpusInterleave)
 	do("corpus/bounds", plcCorpusBounds)
 	do("corpus/longreps", plcCorpusLongReps)
 	do("corpus/badkey", plcCorpusBadKey)
@@ -2094,7 +2303,7 @@ func TestC14(t *testing.T) {
 	do("corpus/submit-null", plcCorpusSubmitNull)
 	do("corpus/ladder", plcCorpusLadder)
 
-	nRoster, nVerify, nSubmit, nBig := 14, 14, 6, 0
+	nRoster, nVerify, nSubmit, nBig := 9, 14, 6, 0
 	rosterOps, maxBatch, totalCap, nver, nsub := 22, 12, 40, 5, 4
 	if thorough {
 		nRoster, nVerify, nSubmit, nBig = 120, 120, 50, 24
@@ -2107,6 +2316,14 @@ func TestC14(t *testing.T) {
 	for i := 0; i < nRoster; i++ {
 		r := Rng(1420000 + int64(i))
 		do(fmt.Sprintf("roster/%d", i), func(h *plcHist) { plcGenRoster(h, r, rosterOps, maxBatch, totalCap) })
+	}
+	nInter, interEpochs := 8, 2
+	if thorough {
+		nInter, interEpochs = 60, 3
+	}
+	for i := 0; i < nInter; i++ {
+		r := Rng(1450000 + int64(i))
+		do(fmt.Sprintf("interleave/%d", i), func(h *plcHist) { plcGenInterleave(h, r, interEpochs) })
 	}
 	for i := 0; i < nSubmit; i++ {
 		r := Rng(1430000 + int64(i))
